@@ -76,6 +76,15 @@ func checkLookupsReadStore(r *Report) {
 			}
 			n++
 			r.Ob("R-C09-2", ret.Pos(), MustPass(f, ret, isGet), "a lookup of the routing table reports success only after reading the shared store in this call (no answer from process-local state)", r.P.FuncName(f), "lookup-reads-store")
+			// ... and only where that read succeeded: an answer served when the store could not be read is
+			// the last value this process saw, not what the store holds now
+			okRead := false
+			Instrs(f, func(in ssa.Instruction) {
+				if ci, ok := in.(ssa.CallInstruction); ok && isGet(in) && ErrOK(ret.Block(), ci) {
+					okRead = true
+				}
+			})
+			r.Ob("R-C09-2", ret.Pos(), okRead, "a lookup of the routing table reports success only on the edge where the read of the shared store succeeded", r.P.FuncName(f), "lookup-success-needs-read-ok")
 		}
 	}
 	if n < 1 {
